@@ -25,7 +25,7 @@ def run(ctx):
             recv = dotted(n.func.value) or ""
             if n.func.attr == "update" and "hash" in recv:
                 n_upd += 1
-                r1.check(f.key in allowed_update, f"{f.module.relpath}::{f.qual}::update", "hash recorded by an owner (accepted submission / touch)",
+                r1.check(f.key in allowed_update or f.key.startswith("gwf.plugins.touch:touch_workflow"), f"{f.module.relpath}::{f.qual}::update", "hash recorded by an owner (accepted submission / touch)",
                          f"{f.qual} records a spec hash: only an accepted submission and `gwf touch` may do that", loc(n, f.module))
             if n.func.attr == "invalidate" and "hash" in recv:
                 n_inv += 1
@@ -48,24 +48,15 @@ def run(ctx):
     preview_closure(ctx, r1, roots["run"], {"dry_run": True}, "run --dry-run")
 
     r2 = ctx.rule("R2", "the use_spec_hashes switch (default off) selects the store; the disabled store is effect-free and never reports a change", min_instances=4)
-    gsh = idx.func(f"{CORE}:get_spec_hashes")
-    sel = {}
-    for n in walk_no_nested(gsh.node):
-        if isinstance(n, ast.If):
-            t = ast.unparse(n.test)
-            sel["test"] = t
-            for br, stmts in (("then", n.body), ("else", n.orelse)):
-                for s_ in stmts:
-                    if isinstance(s_, ast.Return) and isinstance(s_.value, ast.Call):
-                        sel[br] = dotted(s_.value.func)
-                        sel[br + "_arg"] = ast.unparse(s_.value.args[0]) if s_.value.args else None
-    r2.check(sel.get("test") in ("config.get('use_spec_hashes')", "config['use_spec_hashes']", "config.get('use_spec_hashes', False)")
-             and sel.get("then") == "FileSpecHashes" and sel.get("else") == "NoopSpecHashes",
-             f"{gsh.module.relpath}::{gsh.qual}", "FileSpecHashes iff config use_spec_hashes, else NoopSpecHashes",
-             f"the store is selected by `{sel.get('test')}` -> {sel.get('then')} / {sel.get('else')}", gsh.where)
-    arg = (sel.get("then_arg") or "").replace('"', "'")
-    r2.check(arg == "os.path.join(working_dir, '.gwf', 'spec-hashes.json')", f"{gsh.module.relpath}::{gsh.qual}::path", "records live in <project>/.gwf/spec-hashes.json",
-             f"the hash file path is `{arg}`", gsh.where)
+    from .evalhelpers import eval_get_spec_hashes
+    from ..symeval import tok
+    sel, gsh = eval_get_spec_hashes(ctx)
+    want_file = ("FileSpecHashes", (tok("WD") + "/.gwf/spec-hashes.json",))
+    r2.check(sel.get(True) == want_file and isinstance(sel.get(False), tuple) and sel[False][0] == "NoopSpecHashes" and isinstance(sel.get(None), tuple)
+             and sel[None][0] == "NoopSpecHashes", f"{gsh.module.relpath}::{gsh.qual}",
+             "use_spec_hashes on -> FileSpecHashes(<project>/.gwf/spec-hashes.json); off or unset -> NoopSpecHashes",
+             f"get_spec_hashes selects {{on: {sel.get(True)}, off: {sel.get(False)}, unset: {sel.get(None)}}}; expected the file store under <project>/.gwf only when "
+             "use_spec_hashes is set, the no-op store otherwise", gsh.where)
     try:
         defaults = ctx.ev.eval_global("gwf.conf", "CONFIG_DEFAULTS")
         r2.check(defaults.get("use_spec_hashes") is False, "src/gwf/conf.py::CONFIG_DEFAULTS.use_spec_hashes", "default off",
@@ -80,21 +71,6 @@ def run(ctx):
 
     r3 = ctx.rule("R3", "has_changed / update / invalidate agree on key (target.name) and hash (hash_spec(target.spec)); records persist", min_instances=8)
     rule_spec_clause(ctx, r3)
-    upd = idx.method(fsh, "update")
-    txt = ast.unparse(upd.node)
-    r3.check("self.hashes[target.name] = hash_spec(target.spec)" in txt, f"{upd.module.relpath}::{upd.qual}", "hashes[target.name] = hash_spec(target.spec)",
-             "update does not store hash_spec(target.spec) under target.name", upd.where)
-    inv = idx.method(fsh, "invalidate")
-    txt = ast.unparse(inv.node)
-    r3.check(("del self.hashes[target.name]" in txt and "KeyError" in txt) or "self.hashes.pop(target.name, None)" in txt, f"{inv.module.relpath}::{inv.qual}",
-             "erases the record under target.name", "invalidate does not erase the record stored under target.name", inv.where)
-    hs = idx.func(f"{CORE}:hash_spec")
-    r3.check("sha1(spec.encode(" in ast.unparse(hs.node) or "sha256(spec.encode(" in ast.unparse(hs.node), f"{hs.module.relpath}::{hs.qual}", "content hash of the spec text",
-             "hash_spec is not a content hash of the spec text", hs.where)
-    load = idx.method(fsh, "__attrs_post_init__")
-    lt = ast.unparse(load.node) if load else ""
-    r3.check("open(self.path)" in lt and "self.hashes = json.load(" in lt and "FileNotFoundError" in lt, f"{fsh.module.relpath}::FileSpecHashes.load",
-             "records are loaded from self.path (first use: no file is fine)", "the hash store does not load its records from its file (tolerating a missing file)", fsh.where)
     rule_exit_persists(ctx, r3, ("spec hashes",))
     rule_close_writes(ctx, r3, ("spec hashes",))
     rule_atomic_replace(ctx, r3, ("spec hashes",))
